@@ -156,7 +156,8 @@ def _mk_init_body( self_name, name, type_ ):
       # ( _check_len refuses a list of another length than the field has )
       return f"[{_recursive_generate_copy( x[0], e, depth+1 )} for {e} in _check_len({v}, {len(x)}, '{name}')]"
     if is_bitstruct_class( x ):
-      return f"{v}.clone()"
+      # ( _check_cls refuses a value of another class than the field has )
+      return f"_check_cls({v}, _type_{name}, '{name}').clone()"
     return f"_type_{name}({v})"
 
   if isinstance( type_, list ) or is_bitstruct_class( type_ ):
@@ -215,6 +216,12 @@ def _mk_init_fn( self_name, fields ):
       raise ValueError( f"list field '{name}' has {n} elements, got {len(v)}" )
     return v
   _globals[ '_check_len' ] = _check_len
+
+  def _check_cls( v, cls, name ):
+    if not isinstance( v, cls ):
+      raise TypeError( f"field '{name}' is of type {cls.__name__}, got {v!r} of type {type(v).__name__}" )
+    return v
+  _globals[ '_check_cls' ] = _check_cls
 
   return _create_fn(
     '__init__',
